@@ -96,7 +96,7 @@ theorem render_wellformed_partial (e : Xs.Bind.BEnv) (Γ : Xs.Bind.Ctx) (scfg : 
       ∧ nsWellFormed toks = true := by
   obtain ⟨toks, h1, h2⟩ := serialize_wellformed_partial e Γ scfg v cfg hcfg m hm evs es hg hc hok
   refine ⟨toks, ?_, h2⟩
-  simp [Xs.Compose.render, hg, hc, nativeText, h1]
+  simp [Xs.Compose.render, hg, hc, nativeText, h1, Proofs.UserMap.userMapOK_valid tblNsEnv m hm]
 
 /-! ### the hypotheses are satisfiable -/
 
@@ -121,6 +121,17 @@ example : ∃ evs es, Xs.Bind.generate Props.C01.e0 Props.C01.Γ2 {} vEx = .ok e
 example : (match Xs.Compose.render tblNsEnv Props.C01.e0 Props.C01.Γ2 {} {} [(none, ['u', 'r', 'n', ':', 'a'])] vEx with
     | .text _ => true
     | _ => false) = true := by
+  decide +kernel
+
+/-- repaired (PENDING-c03d-01): `XmlSerializer.render` with a prefix map that cannot be declared
+raises `XmlWriterError`, for every universe and value -/
+theorem render_rejects_invalid_prefixes (e : Xs.Bind.BEnv) (Γ : Xs.Bind.Ctx) (scfg : Xs.Bind.SerCfg)
+    (v : Xs.Bind.Val) (cfg : Cfg) (m : List (Pfx × Str))
+    (h : prefixesValid tblNsEnv (serializerNsMap m) = false) :
+    Xs.Compose.render tblNsEnv e Γ scfg cfg m v = .writeError .xmlWriterError := by
+  simp [Xs.Compose.render, h]
+
+example : prefixesValid tblNsEnv (serializerNsMap [(some ['x', 'm', 'l', 'n', 's'], ['u', 'r', 'n', ':', 'a'])]) = false := by
   decide +kernel
 
 end Props.C03
